@@ -199,6 +199,27 @@ ROUND10 = {
  "C20": "Round 10: the type traversals of typer/results.rs (what hover reads) are audited like the solver's.",
 }
 
+# clauses added after the third blind round 11 (first slip + a cooperating-site change in another file; seeded/ROUNDS.md); appended after ROUND10
+ROUND11 = {
+ "C01": "Round 11: no new reversal, swap or sort in the term-handling code (resolved calls, per-file budgets); analysis walkers visit a sub-term whatever its shape; link order and interface pins (shared with C14, C15).",
+ "C02": "Round 11: every statement walker of the Go back end with a catch-all names each block-carrying form; liveness walkers visit every sub-term; the Go spelling of a renamed local and of a Ref struct (known findings); link order and pins (shared).",
+ "C03": "Round 11: an arm of check_expr that stamps the expected type on a node hands that type to the check of a value-producing child.",
+ "C04": "Round 11: a formatter that keeps the diagnostics of one stage is handed that stage's error variant only (no error is emptied on its way out).",
+ "C05": "Round 11: the set that turns an identifier pattern into a constructor is recognised by what fills it (insertions under the enum arm).",
+ "C06": "Round 11: the rewriter that resolves nested type switches reaches every block-carrying statement; no new reordering in compile_match.rs.",
+ "C07": "Round 11: impl function names keep every component whole also through helpers (shared with C17).",
+ "C08": "Round 11: the capture walk visits a sub-term whatever its shape (no descent under a test of the child's own form).",
+ "C09": "Round 11: no new reversal, swap or sort of a sequence in the term-handling code; effect walkers of the Go dead-code pass visit every sub-term.",
+ "C10": "Round 11: every EPrim of the checker and of the TAST builder is built in the arm that reads the literal (two readers of one literal).",
+ "C11": "Round 11: trivia between two tokens is skipped by a loop, never by a single step.",
+ "C13": "Round 11: each ledgered hash iteration states a reason that is evaluated on the syntax (unique-or-none, cardinality-only, single-or-report).",
+ "C14": "Round 11: the loop around the interface pins ranges over every linked unit (shared with C15).",
+ "C15": "Round 11: a core file's own format_version / compiler_abi are tested, not only those of the interface embedded in it; the pin loop ranges over every linked unit.",
+ "C17": "Round 11: name constructors are followed into their helpers; a numeric literal boxed into dyn keeps its type (shared with C10).",
+ "C18": "Round 11: a derived method clashes with a hand-written one like any inherent method (shared with C17).",
+ "C19": "Round 11: the Go spelling of a renamed local stays outside the identifier grammar and generated type names keep letter case (two known findings); impl names whole (shared with C17).",
+}
+
 CLAIMED = {
  "C01": dict(
    text="Semantic preservation is NOT decided. Decided on every arm of every pass: pass totality (no catch-all over the input IR, anchor "
@@ -391,6 +412,8 @@ def main():
                 c["text"] = c["text"] + " " + ROUND9[pid]
             if pid in ROUND10:
                 c["text"] = c["text"] + " " + ROUND10[pid]
+            if pid in ROUND11:
+                c["text"] = c["text"] + " " + ROUND11[pid]
             m["checks"].append({
                 "property_id": pid,
                 "quick_cmd": f"./check {pid} --tier quick",
